@@ -20,6 +20,20 @@ partial def parseTree : List String → Option (Tree × List String)
         kids k toks' (c :: acc)
     let (cs, rest') ← kids n rest []
     pure (.list ty id cs, rest')
+  | "S" :: ty :: id :: n :: rest => do
+    -- a list that is then added to ITSELF (`r.add_chunk(r)`): `add_chunk` takes a copy of the added
+    -- chunk, so the result is the list with a copy of itself as one more child
+    let ty ← parseHexNat ty
+    let id ← parseHexNat id
+    let n ← n.toNat?
+    let rec kidsS (k : Nat) (toks : List String) (acc : List Tree) : Option (List Tree × List String) :=
+      match k with
+      | 0 => some (acc.reverse, toks)
+      | k + 1 => do
+        let (c, toks') ← parseTree toks
+        kidsS k toks' (c :: acc)
+    let (cs, rest') ← kidsS n rest []
+    pure (.list ty id (cs ++ [.list ty id cs]), rest')
   | _ => none
 
 partial def canon : Tree → String
